@@ -85,7 +85,7 @@ func NewContractSet() *ContractSet {
 	return &ContractSet{Specs: map[string]*SpecFunc{}, Funcs: map[string]*FuncContract{}, Lemmas: map[string]*Lemma{}}
 }
 
-var kwRe = regexp.MustCompile(`^(pure|func|lemma|requires|ensures-bounded|ensures|loop|invariant|decreases|axiom|def|use|assert|table|note|terminates)\b`)
+var kwRe = regexp.MustCompile(`^(pure|func|lemma|requires|ensures-bounded|ensures|loop|invariant|decreases|axiom|def|use|assert|table|literal|note|terminates)\b`)
 var labelRe = regexp.MustCompile(`^@([A-Za-z0-9_\-/.]+):\s*`)
 
 type rawLine struct {
@@ -180,6 +180,17 @@ func (cs *ContractSet) LoadContractFile(path, pkgPath string, trusted bool) erro
 				}
 				curSpec.Default = e
 			}
+		case "literal":
+			// literal <var> in <func>: the string constant a local variable is initialised from
+			if curSpec == nil {
+				return fmt.Errorf("%s:%d: literal outside pure func", path, r.line)
+			}
+			f := strings.Fields(r.rest)
+			if len(f) != 3 || f[1] != "in" {
+				return fmt.Errorf("%s:%d: literal <var> in <func>", path, r.line)
+			}
+			curSpec.Table = "literal:" + f[0]
+			curSpec.TableIn = f[2]
 		case "def":
 			if curSpec == nil {
 				return fmt.Errorf("%s:%d: def outside pure func", path, r.line)
